@@ -70,6 +70,7 @@ fixed = [
     'fixed: property=C15 d3c2242 valid_range_test raised AttributeError for list / tuple input (inp.shape)',
     'fixed: property=C05 a4cbbbd NumpyStream / NetcdfStream / QcConfig.run raised ValueError (reshape) for every window that excludes a row',
     'fixed: property=C05 c7a882d NumpyStream / NetcdfStream with the documented dict input and a time axis raised ValueError (0-d row mask) when no window was configured',
+    'fixed: property=C19 1a816ce PandasStore.save(exclude=[...]) raised TypeError / filtered by the include list (exclude arm read `include`)',
     'fixed: property=C05 74329b5 PandasStream raised IndexError / marked wrong rows for a DataFrame whose index is not 0..n-1 (iloc with labels)',
 ]
 
